@@ -76,11 +76,13 @@ func (R *Repository) AddCRL(crlLocations *core.CRLLocations, chains *core.Certif
 		}
 	}
 
-	entry.entryLock.Lock()
-	defer entry.entryLock.Unlock()
+	entry.entryLock.RLock()
 	verifhook.Hit("repo.add.locked", R, identifier)
-	if entry.LastUpdateSignatureVerifyFailed {
+	lastUpdateSignatureVerifyFailed := entry.LastUpdateSignatureVerifyFailed
+	entry.entryLock.RUnlock()
+	if lastUpdateSignatureVerifyFailed {
 		//check if the chain contains a new valid signing cert
+		//(tryUpdateSignatureCertFromChain takes the entry lock itself and checks the flag again)
 		R.tryUpdateSignatureCertFromChain(entry, chains)
 	}
 	return crlAdded, nil
